@@ -447,7 +447,9 @@ func c16index(p *Program, r *Report) {
 				if iff, ok := lastInstr(h).(*ssa.If); ok {
 					exit := h.Succs[1]
 					_ = iff
-					if (exit == b || exit.Dominates(b)) && h.Dominates(b) {
+					// … and that loop has no other way out (round 7, C16-agent7-m3: a `break` where `continue` was
+					// meant stopped the filling at the first wrapper that already existed)
+					if (exit == b || exit.Dominates(b)) && h.Dominates(b) && len(earlyLoopExits(txsM, h)) == 0 {
 						okAfter = true
 					}
 				}
